@@ -382,11 +382,12 @@ fn run(e: &Engine) {
         check,
     );
     // all strings over the class alphabet
-    let p = Partitioned { alpha: CLASS_ALPHABET, max_len: e.tier.pick(6, 7), prefix_len: 2 };
+    // (the 19^7 enumeration runs on the release build only; the checked build keeps 19^6)
+    let p = Partitioned { alpha: CLASS_ALPHABET, max_len: if cfg!(debug_assertions) { 6 } else { e.tier.pick(6, 7) }, prefix_len: 2 };
     let pr = &p;
     e.enumerate::<Case, _, _>("all-strings-over-class-alphabet", p.parts(), move |part, f| pr.run(part, &mut |s| f(Case::Class { bytes: B(s.to_vec()) })), check);
     // all strings over the list alphabet
-    let pl = Partitioned { alpha: crate::props::c19::LIST_ALPHABET, max_len: e.tier.pick(6, 8), prefix_len: 2 };
+    let pl = Partitioned { alpha: crate::props::c19::LIST_ALPHABET, max_len: if cfg!(debug_assertions) { e.tier.pick(6, 7) } else { e.tier.pick(6, 8) }, prefix_len: 2 };
     let plr = &pl;
     e.enumerate::<Case, _, _>("all-strings-over-list-alphabet", pl.parts(), move |part, f| plr.run(part, &mut |s| f(Case::List { bytes: B(s.to_vec()) })), check);
     if e.tier == crate::engine::Tier::Thorough {
